@@ -13,7 +13,7 @@ rows = ["| Seeded change | Property | What it does (short) | First attempt | Now
 for d in sorted(glob.glob(os.path.join(V, 'seeded', 'C*-*m*'))):
     i = os.path.basename(d)
     m = json.load(open(os.path.join(d, 'meta.json')))
-    short = (m.get('needs_to_manifest') or '').strip().split('\n')[0][:140].replace('|', '/')
+    short = ''.join(ch if ch.isprintable() else repr(ch)[1:-1] for ch in (m.get('needs_to_manifest') or '').strip().split('\n')[0][:140]).replace('|', '/')
     r = res.get(i, {})
     rules = ", ".join(sorted(set(x.split(':')[-1] for x in r.get('rules', []))))[:160]
     chk = m.get('detect_with', m['breaks_property'])
